@@ -229,6 +229,21 @@ class C09(Prop):
                 top = lang.N('once', top)
             defs, consts = [('sa', cterm)], []
             f = lang.inline(top, defs)
+        wide_n = None
+        if kind in ('dt_off', 'dt_on') and rng.random() < 0.06:
+            # a wide window (13..200 samples) inside a named sub-specification that later assertions refer to once or
+            # twice - the shared node is evaluated for every reference - on a trace about as long as the window
+            N, V, C = lang.N, lang.V, lang.C
+            w = lang.wide_width(rng)
+            a = rng.choice([0, 0, 1, 3])
+            ops = ['once', 'historically'] + (['eventually', 'always'] if kind == 'dt_off' else [])
+            sa = N(rng.choice(ops), N(rng.choice(['geq', 'leq']), V('x'), C(rng.choice([0.0, 1.0]))), ivl=(a, a + w))
+            ref = V('sa')
+            top = rng.choice([N('and', ref, N('geq', V('y'), C(0.0))), N('or', ref, N('prev', ref)),
+                              N('and', N('not', ref), N('once', ref, ivl=(0, 2))), N('implies', N('leq', V('y'), C(1.0)), ref)])
+            defs, consts = [('sa', sa)], []
+            f = lang.inline(top, defs)
+            wide_n = rng.randint(max(8, w // 2), w + a + 40)
         names = lang.variables(f) or ['x']
         case = {'kind': kind, 'top': lang.to_jsonable(top), 'defs': [(nm, lang.to_jsonable(g)) for nm, g in defs],
                 'consts': [(nm, val) for nm, val in consts], 'style': rng.choice(['add_sub_spec', 'one-text']),
@@ -253,6 +268,9 @@ class C09(Prop):
         else:
             n = rng.randint(1, 20) if kind != 'dt_on_pastified' else lang.horizon(f) + rng.randint(1, 12)
             case['data'] = lang.gen_trace(rng, names, n)
+            if wide_n:
+                case['wide_named'] = True
+                case['data'] = dict((k, lang.gen_values(rng, wide_n, rng.choice(['tiny', 'steps', 'small']))) for k in names)
         return case
 
     def _aligned(self, rng, names):
@@ -298,6 +316,8 @@ class C09(Prop):
                     refs[h[2]] = refs.get(h[2], 0) + 1
         v.nontrivial = any(lang.has_stateful(g) for _, g in defs) or any(c >= 2 for c in refs.values())
         v.info['kind:' + kind] = 1
+        if case.get('wide_named'):
+            v.info['class:wide-window-in-a-named-sub-specification'] = 1
         v.info['multi-ref'] = 1 if any(c >= 2 for c in refs.values()) else 0
         v.info['consts'] = 1 if case['consts'] else 0
         iasd = {}
